@@ -29,6 +29,7 @@ inductive Pc
   | gAlloc | gCopied | gAdjusted | gSwapped | gDone
   | aCommitted | aLocked | aTaken | aMut | aUser | aRelocs | aExec | aRestored
   | fCommitted | finalized
+  | dead                    -- the assembling thread unwound (a panic inside commit / alter / the user's closure)
 deriving DecidableEq, Repr, Inhabited
 
 structure State where
@@ -39,18 +40,22 @@ structure State where
   own : Option Buf         -- buffer owned by the assembling thread: taken out of the slot, or the new larger mapping
   done : Nat               -- completed commit / alter operations = the version a reader is entitled to
   executors : Nat          -- live `Executor` handles
+  poisoned : Bool := false -- a thread panicked while it held the write guard (`std::sync::RwLock` poisoning): every later `read()` / `write()` is an `Err`
 deriving DecidableEq, Repr, Inhabited
 
-def init (executors : Nat) : State := ⟨.idle, false, 0, some ⟨.rx, 0, true⟩, none, 0, executors⟩
+def init (executors : Nat) : State := ⟨.idle, false, 0, some ⟨.rx, 0, true⟩, none, 0, executors, false⟩
 
 inductive Act
   | startInPlace | startGrow | startAlter | startFinalize    -- the assembling thread enters an operation
   | step                                                      -- … performs the next step of the operation it is in
   | rlock | runlock | dropExecutor | newExecutor              -- executor threads
+  | abort                                                     -- the assembling thread panics where it is and unwinds
 deriving DecidableEq, Repr, Inhabited
 
-def canWrite (s : State) : Bool := !s.writer && s.readers == 0
-def canRead (s : State) : Bool := !s.writer
+/-- `write().unwrap()` / `read().unwrap()` succeed: the lock is free for that mode and not poisoned (on a poisoned lock the
+`unwrap` panics in the calling thread, which therefore gets no guard) -/
+def canWrite (s : State) : Bool := !s.writer && s.readers == 0 && !s.poisoned
+def canRead (s : State) : Bool := !s.writer && !s.poisoned
 
 def setProt (b : Option Buf) (p : Prot) : Option Buf := b.map fun x => { x with prot := p }
 
@@ -64,7 +69,7 @@ def step (s : State) : Act → Option State
   | .startFinalize => if s.pc == .idle then some { s with pc := .fCommitted } else none
   | .step =>
     match s.pc with
-    | .idle | .finalized => none
+    | .idle | .finalized | .dead => none
     -- in place
     | .ipLocked => some { s with pc := .ipTaken, own := s.slot, slot := none }            -- mem::replace(&mut *lock, default())
     | .ipTaken => some { s with pc := .ipMut, own := setProt s.own .rw }                   -- make_mut
@@ -95,6 +100,11 @@ def step (s : State) : Act → Option State
   | .runlock => if 0 < s.readers then some { s with readers := s.readers - 1 } else none
   | .dropExecutor => if 0 < s.executors && (s.readers == 0 || 1 < s.executors) then some { s with executors := s.executors - 1 } else none
   | .newExecutor => if s.pc != .finalized then some { s with executors := s.executors + 1 } else none
+  -- unwinding drops what the thread owns: the buffer it had taken out (unmapped) and the write guard, which poisons the lock.
+  -- the shared slot keeps whatever it holds at that moment (the empty placeholder if the buffer was taken out)
+  | .abort =>
+    if s.pc == .finalized || s.pc == .dead then none
+    else some { s with pc := .dead, own := none, writer := false, poisoned := s.poisoned || s.writer }
 
 def run (s : State) : List Act → Option State
   | [] => some s
